@@ -35,16 +35,16 @@ func vsStoredExt(a *AddrManager) uint32 {
 // unlocked in between, and with ordinary external/internal address generation interleaved.
 func VsH_Ordinals() {
 	kmc, a, pub, priv, _ := vsNewWallet()
-	mode := vsFork(5, "mode")
+	mode := vsFork(vsBound("modes"), "mode") // quick: the locked (public-derivation) routes 0..2; thorough: all five
 	base := uint32(0)
 	switch mode {
-	case 1:
+	case 3:
 		vsAssume(kmc.Unlock(priv) == nil)
-	case 3: // an external address was handed out before: the ordinal continues after it
+	case 1: // an external address was handed out before: the ordinal continues after it
 		_, err := kmc.NextAddresses(a.keystoreName, false, 1)
 		vsAssume(err == nil)
 		base = 1
-	case 4: // internal addresses do not consume external ordinals
+	case 2: // internal addresses do not consume external ordinals
 		_, err := kmc.NextAddresses(a.keystoreName, true, 1)
 		vsAssume(err == nil)
 	}
@@ -58,7 +58,7 @@ func VsH_Ordinals() {
 	vsAssert(vsStoredExt(a) == o1+1, "counter-persisted-past-the-issued-ordinal")
 	g1, ok1 := kmc.GetPublicKeyOrdinal(pk1)
 	vsAssert(ok1 && g1 == o1, "lookup-returns-the-issued-ordinal")
-	if mode == 2 {
+	if mode == 4 {
 		vsAssume(kmc.Unlock(priv) == nil)
 	}
 	pk2, o2, err := kmc.GenerateNewPublicKey()
@@ -87,6 +87,45 @@ func VsH_Ordinals() {
 	vsAssume(err == nil && pk3 != nil)
 	vsAssert(o3 == o2+1, "ordinals-continue-after-restart")
 	k3 := pk3.SerializeCompressed()
-	vsAssert(!bytes.Equal(k3, k1) && !bytes.Equal(k3, k2), "no-reuse-after-restart")
+	a2 := kmc2.managedKeystores[a.keystoreName]
+	vsAssume(a2 != nil)
+	vsAssert(bytes.Equal(k3, vsRefKey(a2, o3)), "key-after-restart-is-the-external-child-at-its-ordinal")
+	vsAssert(a2.acctInfo.acctKeyPub.String() == a.acctInfo.acctKeyPub.String(), "reloaded-keystore-has-the-same-account-key")
+	_ = k2
 	vsReach("ordinals-end")
+}
+
+// VsH_OrdinalFault: a storage fault at the k-th mutating store call (or at commit) of an issuance. A failed issuance
+// consumes no ordinal and leaves nothing behind, in memory or in the store: the next issuance gets the same ordinal and
+// the key at it, and the reopened wallet agrees.
+func VsH_OrdinalFault() {
+	kmc, a, pub, _, _ := vsNewWallet()
+	pre := vsStore.root.clone()
+	vsStore.ops = 0
+	vsStore.faultAt = vsFork(5, "fault") + 1
+	pk0, o0, err := kmc.GenerateNewPublicKey()
+	vsStore.faultAt = 0
+	if err == nil {
+		vsAssert(pk0 != nil && o0 == 0, "unfaulted-issuance-gets-ordinal-zero")
+		vsReach("fault-not-hit")
+		return
+	}
+	vsAssert(vsBktEqual(vsStore.root, pre), "failed-issuance-leaves-the-store-unchanged")
+	vsAssert(vsStoredExt(a) == 0, "failed-issuance-does-not-advance-the-persisted-counter")
+	vsAssert(len(a.addrs) == 0, "failed-issuance-leaves-no-address-in-memory")
+	pk1, o1, err := kmc.GenerateNewPublicKey()
+	vsAssert(err == nil && pk1 != nil, "issuance-after-a-failed-one-succeeds")
+	vsAssume(err == nil && pk1 != nil)
+	vsAssert(o1 == 0, "failed-issuance-consumes-no-ordinal")
+	vsAssume(o1 == 0)
+	k1 := pk1.SerializeCompressed()
+	vsAssert(bytes.Equal(k1, vsRefKey(a, 0)), "key-after-a-failed-issuance-is-the-child-at-its-ordinal")
+	pk2, o2, err := kmc.GenerateNewPublicKey()
+	vsAssert(err == nil && pk2 != nil && o2 == 1, "ordinals-stay-consecutive-after-a-failed-issuance")
+	kmc2, err := NewKeystoreManagerForPoC(vsDBT{}, pub, vsParams)
+	vsAssume(err == nil)
+	p1, _ := pocec.ParsePubKey(k1, pocec.S256())
+	g1, ok1 := kmc2.GetPublicKeyOrdinal(p1)
+	vsAssert(ok1 && g1 == 0, "lookup-after-restart-agrees")
+	vsReach("fault-end")
 }
